@@ -421,7 +421,7 @@ def batch(arg):
             for mech, what in check_orders(ir):
                 out["viol"].append({"mech": mech, "what": what, "files": files, "case": i})
     out["stats"] = dict(STATS)
-    out["viol"] = out["viol"][:40]
+    out["viol"] = common.cap_by_mech(out["viol"])
     return out
 
 
